@@ -816,3 +816,27 @@ class ADropQuery(Adapter):
 
 
 register(ADropQuery())
+
+
+# --------------------------------------------------------------------------
+# Badge (gradient embedding of the stub's probabilities, k-means++ seeding with the strategy's generator)
+# --------------------------------------------------------------------------
+class ABadge(Adapter):
+    name = "Badge"
+    n = 2          # two samples: the k-means++ seeding forks on every distance comparison and on the proportional draw
+    needs_clf = True
+    independent = False
+    slow = True
+    selection = "proportional"
+    product_abstraction = True
+    units = ["skactiveml.pool._badge:Badge.query", "skactiveml.pool._badge:_d_2"]
+
+    def make(self, seed, sym=True, inputs=None, **kw):
+        return pool().Badge(random_state=seed, **kw)
+
+    def call(self, qs, s, b, sym, table=None, return_utilities=True):
+        return qs.query(s.X, s.y, self.clf(sym, table, s.K), fit_clf=False, candidates=s.cand, batch_size=b,
+                        return_utilities=return_utilities)
+
+
+register(ABadge())
